@@ -4,7 +4,7 @@
 // tier: quick
 // name: SimplifyPath64.exit-condition
 // what: SimplifyPath64 terminates; the result is a sub-sequence of the input; open paths keep both end points; on return no retained vertex (open end points aside) is within epsilon of the line through its retained neighbours unless only two vertices remain; with epsilon 0 the exact shoelace sum of a closed path is unchanged
-// bound: every path of 4..5 points (quick) / 4..6 points (thorough) over the 3x3 grid {0,1,2}^2, epsilon in {0, 0.5, 1, 2}, closed and open, exhaustive, integer oracles
+// bound: every path of 4..5 points (quick) / 4..6 points (thorough) over the 3x3 grid {0,1,2}^2, epsilon in {0, 0.5, 1, 2}, closed and open, exhaustive, integer oracles; plus 3 directed closed paths with coordinate differences near 2^29 (epsilon 0)
 
 package go_clipper2
 
@@ -104,5 +104,14 @@ func TestVerifBoundedSimplify(t *testing.T) {
 		}
 	}
 	rec(Path64{})
+	// directed: coordinate differences near 2^29, three consecutive vertices with exact cross product 1 (F44)
+	k := int64(1) << 28
+	for _, p := range []Path64{{{-k, -k}, {k - 1, k - 2}, {k, k - 1}, {k, -k}}, {{k, -k}, {-k, -k}, {k - 1, k - 2}, {k, k - 1}}, {{0, 0}, {2*k - 1, 2*k - 2}, {2 * k, 2*k - 1}, {2 * k, 0}}} {
+		cases++
+		r := SimplifyPath64(append(Path64{}, p...), 0, true)
+		if !subseq(r, p) || shoe(r) != shoe(p) {
+			report(p, 0, true, r, "area changed with epsilon 0 (large coordinate differences)")
+		}
+	}
 	fmt.Printf("VERIF-BOUNDED SimplifyPath64.exit-condition cases=%d failures=%d\n", cases, fails)
 }
